@@ -47,32 +47,6 @@ def contexts(tier):
         (Ctx("label-position", FN, [":", ";", "}"]), 2),
         (Ctx("after-case", FN + ["switch", "(", "x", ")", "{", "case"], ["}", "}"]), 3),
     ]
-    # rarely used C99/C11 forms: every combination of the listed alternatives (multi-token hole classes)
-    rare_cls = {
-        "?M": ["int x ;", '_Static_assert ( 1 , "s" ) ;', "_Static_assert ( 1 ) ;", "int : 1 ;", "struct { int y ; } ;", "union { int y ; T x ; } ;",
-               "_Alignas ( 1 ) char y ;", "T x : 1 , : 0 ;", "const T * x , y [ 1 ] ;", "_Atomic ( T ) x ;", "enum { x } y ;"],
-        "?L": ['"s"', 'L"w"', 'u8"s"', 'u"s"', 'U"s"'],
-        "?G": ["[ 1 ]", ". x", "[ 1 ] . x", ". x [ 1 ]", ""],
-        "?P": ["int x", "int", "T", "T x", "int * x", "int x [ ]", "int ( * x ) ( void )", "int ( * ) ( T )", "int ( T )", "int x [ static 1 ]", "register T x", "const T"],
-        "?F": ["inline", "_Noreturn", "static", "extern", "static inline", "_Thread_local static", ""],
-        "?Q": ["const", "volatile", "restrict", "_Atomic", "const volatile", "static", "static const", "const static", ""],
-        "?B": ["1", "*", "x", "", "1 + x"],
-    }
-    rare = [
-        ("struct-members", PRE, "struct y { ?M ?M ?M } ;", []),
-        ("string-pieces-init", PRE, "char x [ ] = ?L ?L ?L ;", []),
-        ("string-pieces-expr", FN, "x = sizeof ?L ?L + y ( ?L ?L , ?L ) [ 1 ] ;", ["}"]),
-        ("static-assert-message", PRE, "_Static_assert ( 1 , ?L ?L ) ; void y ( void ) { _Static_assert ( 1 , ?L ) ; }", []),
-        ("designators", PRE, "struct y { int x ; } x [ 1 ] = { ?G = 1 , ?G = { 1 } , [ 1 ] ?G = 0 , } ;", []),
-        ("designators-compound-literal", FN, "x = ( struct y [ 1 ] ) { ?G = 1 , ?G = { 1 } } ?G ;", ["}"]),
-        ("parameters", PRE, "?F void y ( ?P , ?P , ?P ) ;", []),
-        ("parameters-of-definition", PRE, "?F void y ( ?P , ?P ) { } T x ;", []),
-        ("parameters-ellipsis", PRE, "void y ( ?P , ... ) ; void x ( ?P , ?P , ... ) { }", []),
-        ("array-parameter-bounds", PRE, "void y ( int x , int y [ ?Q ?B ] , T ( * x ) [ ?B ] ) ;", []),
-        ("kr-definitions", PRE, "int y ( x , y ) ?P ; T y ; { return x ; } int x ( ) { }", []),
-    ]
-    for name, pre, pat, suf in rare:
-        out.append((PatCtx("rare:" + name, pre, pat, suf, rare_cls), 0))
     # the reduced-alphabet contexts of the tree checks: deeper, and they must be accepted too
     if os.environ.get("C01_NO_DEEP"):
         return out
